@@ -62,6 +62,9 @@ func sameOrigins(a, b map[string]ssax.Origin) bool {
 
 func DocFlow(w *load.World, c *core.Collector) {
 	idLookupComplete(w, c)
+	changeNotSkipped(w, c)
+	oneTransaction(w, c)
+	mergeRemovalKeyed(w, c)
 	props := []string{"C01", "C02"}
 	n := 0
 	for _, f := range w.Fns {
